@@ -18,6 +18,10 @@ Programs (all seeded):
   B. plain guided-random programs + near-miss mutants (the C06 campaign's shape).
   C. EVERY program of the three small struct grammars (s local / owned / borrowed) up to
      3 (quick) / 4 (thorough) statement nodes.
+  E. generic-instantiation family (harness/inst_gen.py): 15 generic callee shapes (identity, declared identity,
+     duplication, projections, tuple/option/array/struct wrappers, function-typed parameters, explicit type
+     application) x 15 value types (scalars, None, (), nested tuples with None, affine array, structs incl. an
+     empty one, option, function value, qubit) x 5 use contexts (straight, branch merge, loop, nested call, discarded).
   D. optional corpus /verif/work/corpus/*.json of {"src","entry","experimental"} records
      deposited by other checks.
 Rejected programs are not C01's subject (their traces end in `Rejected`).
@@ -122,8 +126,10 @@ def run(ctx):
     scale = float(os.environ.get("VERIF_SCALE", "1"))  # development aid only
     progs = build(ctx, int(ctx.pick(1000, 20000) * scale), int(ctx.pick(250, 4000) * scale),
                   (ctx.pick(3, 4) if scale >= 1 else 2))
-    jobs = lin_jobs(progs) + load_corpus()
-    ctx.log(f"{len(jobs)} programs ({len(jobs) - len(progs)} from the corpus)")
+    import inst_gen
+    inst = inst_gen.programs(ctx.quick)
+    jobs = lin_jobs(progs) + inst + load_corpus()
+    ctx.log(f"{len(jobs)} programs ({len(inst)} of the generic-instantiation family, {len(jobs) - len(progs) - len(inst)} from the corpus)")
     results = record(jobs)
     acc, stuck, r = validate(ctx, results)
     idle = [a for a in ("Check", "Compile", "Validate") if r.coverage.get(a, (0, 0))[1] == 0]
@@ -137,6 +143,8 @@ def run(ctx):
         key = L.key_of(res)
         if key is None:
             raise lib.Machinery(f"Lifecycle01 rejects trace {tid} without a failing event: {res}")
+        if tid.startswith("inst:"):
+            key = inst_gen.key_of(tid, next(e for e in res["ev"] if e["out"] in ("exc", "err")))
         groups[key].append(res)
     for key, cases in sorted(groups.items()):
         lin = [c for c in cases if str(c["id"]) in pbyid]
@@ -191,7 +199,11 @@ def run(ctx):
         "validated_by_origin": dict(valid_by_origin),
         "rejected_by_checker_classes": dict(rejected_cls),
         "features_in_validated_programs": dict(feats),
-        "corpus_programs": len(jobs) - len(progs),
+        "corpus_programs": len(jobs) - len(progs) - len(inst),
+        "generic_instantiation_family": {"programs": len(inst),
+                                         "validated": sum(1 for j in inst if acc.get(j["id"]) == "Validated"),
+                                         "rejected_by_checker": sum(1 for j in inst if acc.get(j["id"]) == "Rejected"),
+                                         "shapes": list(inst_gen.SHAPES), "values": list(inst_gen.VALUES)},
         "lifecycle_action_coverage": {a: r.coverage[a][1] for a in ("Check", "Compile", "Validate")},
         "samples": [A.render(p)[0].split("@guppy\n")[-1] for p in [q for q in vids if q["origin"] == "rich"][-2:]],
     })
